@@ -280,7 +280,15 @@ func (q *Queue) handleDebugQueue(w http.ResponseWriter, r *http.Request) {
 // SetIndexed sets what the currently indexed options are for opts.RepoID.
 func (q *Queue) SetIndexed(opts IndexOptions, state indexState) {
 	q.mu.Lock()
-	item := q.getOrAdd(opts.RepoID)
+	item := q.get(opts.RepoID)
+	if item == nil {
+		// The repository is not tracked (anymore), e.g. it was removed by
+		// MaybeRemoveMissing while it was being indexed. Do not resurrect it as
+		// an item without options: Bump would enqueue it with empty
+		// IndexOptions and MaybeRemoveMissing could never remove it again.
+		q.mu.Unlock()
+		return
+	}
 
 	item.indexState = state
 	if state != indexStateFail {
